@@ -233,3 +233,13 @@ Example a_pull_with_a_backlog :
   let h := hist_of P0 ops_up in
   h = firstn 9 h ++ EUpPoll (UAItem 3%N) :: skipn 10 h /\ npull (firstn 9 h) = 2 /\ nyield (firstn 9 h) = 1 /\ nprodc (firstn 9 h) = 1.
 Proof. vm_compute. repeat split; reflexivity. Qed.
+
+(** BackpressureFec: for_each_concurrent(2) over the same upstream: the third item is pulled
+    with two pulled and one finished *)
+From FB Require Import BackpressureFec.
+Definition ops_fec : list op :=
+  [OBuild TFEC cp_ad [] ups_ex; OPoll 0 no_inj; OPoll 0 no_inj; OPoll 0 no_inj; OPoll 0 no_inj].
+Example a_for_each_pull_with_one_running :
+  let h := hist_of P0 ops_fec in
+  h = firstn 10 h ++ EUpPoll (UAItem 3%N) :: skipn 11 h /\ npull (firstn 10 h) = 2 /\ nprodc (firstn 10 h) = 1.
+Proof. vm_compute. repeat split; reflexivity. Qed.
